@@ -85,7 +85,11 @@ LEVEL_TEXT = (
     "parameters replaced by the call's arguments; attributes assigned once in __init__ (a precomputed tail length / delimiter text) are read through; "
     "the buffer and the offset may be read through local copies. In _parse_data release positions are followed through locals, tuple assignments, "
     "match.span(), conditional expressions (their conditions count as guards) and one-expression helpers (read at the call site); the presence "
-    "test and the threshold test may be held in a local or sit in such a helper. R1.4-R1.7 report a violation only when every condition guarding the release is one "
+    "test and the threshold test may be held in a local or sit in such a helper; a position `m.start()` / `m.end()` is a match position when every "
+    "binding of m is the result of the one delimiter search or None (the search may be hoisted in front of the branch and replaced by None when the "
+    "boundary text is absent: conditional expression, None default overwritten under the presence test, walrus in the test), and a test of such a "
+    "local against None is a match test. R1.5-R1.7 instances are named after the state of the buffer (boundary text absent / present) the site is "
+    "reached in; a site whose guards say nothing about that state stands for every state that has no site of its own (one hold-back computation serving both), and is an instance of its own (`any buffer`) when each state already has one. R1.4-R1.7 report a violation only when every condition guarding the release is one "
     "they model (boundary-text presence tests, the start flag, match tests, the threshold) and otherwise stop with "
     "ANALYSIS-ERROR. It decides these clauses on all paths. It does NOT decide the equality of event streams itself: "
     "that the hold-back position is the right cut for every mixture of CR and LF in the payload beyond R1.5/R1.6, the "
@@ -731,9 +735,19 @@ class Splitter:
         self.ctx, self.roles, self.pats = ctx, roles, pats
         repo = ctx.repo
         cands = []
+        self.ret_tuple: dict[int, ast.Tuple] = {}  # return statement -> the tuple it returns (written in place or held in a local)
+        one_liners = {f.name for f in roles.funcs[1:] if len(f.node.body) >= 1 and isinstance(f.node.body[-1], ast.Return) and all(  # type: ignore[attr-defined]
+            isinstance(st, ast.Expr) and isinstance(st.value, ast.Constant) for st in f.node.body[:-1]) and astq.method_calls(f.node, "search", nested=False)}  # type: ignore[attr-defined]
         for fi in roles.funcs[1:]:
-            rets = [r for r in astq.returns_of(fi.node) if isinstance(r.value, ast.Tuple) and len(r.value.elts) >= 2]
-            if rets and astq.method_calls(fi.node, "search", nested=False):
+            rets = []
+            for r in astq.returns_of(fi.node):
+                tup = self._returned_tuple(fi, r)
+                if tup is not None and len(tup.elts) >= 2:
+                    rets.append(r)
+                    self.ret_tuple[id(r)] = tup
+            # the delimiter search is in the function itself or in a one-expression helper it calls
+            searches = astq.method_calls(fi.node, "search", nested=False) or [c for nm in one_liners if nm != fi.name for c in astq.method_calls(fi.node, nm, nested=False)]
+            if rets and searches:
                 cands.append((fi, rets))
         if len(cands) != 1:
             raise AnchorMissing(f"{roles.cls.name}: expected one helper of {ENTRY} that searches a delimiter and returns (payload, deleted, more), found {[c[0].qualname for c in cands]}")
@@ -762,7 +776,7 @@ class Splitter:
         self.items: list[dict[str, t.Any]] = []  # every classified release position
         stop: set[str] = set()
         for r in self.returns:
-            payload, deleted = r.value.elts[0], r.value.elts[1]  # type: ignore[attr-defined]
+            payload, deleted = self.ret_tuple[id(r)].elts[0], self.ret_tuple[id(r)].elts[1]
             for _ in range(3):
                 while isinstance(payload, ast.Call) and dotted(payload.func) in ("bytes", "bytearray", "memoryview") and len(payload.args) == 1:
                     payload = payload.args[0]
@@ -792,6 +806,23 @@ class Splitter:
         self.n_match = 0
         self._classify_all()
 
+    @staticmethod
+    def _returned_tuple(fi: FuncInfo, r: ast.Return) -> ast.Tuple | None:
+        """`return a, b, c` or `result = (a, b, c)` ... `return result` (nothing the tuple reads is rebound in between)"""
+        v = r.value
+        if isinstance(v, ast.Tuple):
+            return v
+        if isinstance(v, ast.Name):
+            cfg = cfg_of(fi)
+            rd = ReachingDefs(cfg, fi.params)
+            rn = cfg.node_of(r)
+            defs = rd.reaching(rn, v.id) if rn is not None else frozenset()
+            d = next(iter(defs)) if len(defs) == 1 else None
+            if d is not None and d.kind == "assign" and d.index is None and isinstance(d.value, ast.Tuple) and d.node is not None and all(
+                    rd.reaching(d.node, x.id) == rd.reaching(rn, x.id) for x in ast.walk(d.value) if isinstance(x, ast.Name)):
+                return d.value
+        return None
+
     def _is_buffer(self, a: ast.AST, f: FuncInfo) -> bool:
         if isinstance(a, ast.Call) and dotted(a.func) in ("bytes", "bytearray", "memoryview") and len(a.args) == 1:
             a = a.args[0]
@@ -801,11 +832,42 @@ class Splitter:
     def _match_source(self, call: ast.AST, node: Node) -> ast.Call | None:
         """``m.start()`` / ``m.end()`` -> the regex call that produced m"""
         if isinstance(call, ast.Call) and isinstance(call.func, ast.Attribute) and call.func.attr in ("start", "end") and isinstance(call.func.value, ast.Name):
-            defs = self.rd.reaching(node, call.func.value.id)
-            srcs = {id(d.value): d.value for d in defs if d.kind == "assign" and isinstance(d.value, ast.Call) and isinstance(d.value.func, ast.Attribute) and d.value.func.attr in ("search", "match", "fullmatch")}
-            if len(srcs) == 1 and len(defs) == 1:
-                return next(iter(srcs.values()))
+            srcs = self._regex_results(call.func.value.id, node)
+            if srcs is not None and len(srcs) == 1:
+                return srcs[0]
         return None
+
+    def _regex_results(self, name: str, node: Node) -> list[ast.Call] | None:
+        """the regex calls whose result the local can hold at node, when every binding visible there is the result of a
+        search / match / fullmatch or None (`m = RX.search(b)`; `m = RX.search(b) if seen else None`; `m = None` ... `if seen: m =
+        RX.search(b)`): a method of the local can only be called when it is not None, so the None bindings do not count.
+        None = some binding is something else."""
+        defs = self.rd.reaching(node, name)
+        if not defs:
+            return None
+        out: dict[int, ast.Call] = {}
+        for d in defs:
+            if d.kind not in ("assign", "walrus") or d.index is not None or d.value is None:
+                return None
+            calls = self._regex_arms(d.value)
+            if calls is None:
+                return None
+            out.update({id(c): c for c in calls})
+        return list(out.values())
+
+    def _regex_arms(self, value: ast.AST) -> list[ast.Call] | None:
+        """the regex calls among the arms of an expression whose every arm is a search / match / fullmatch call or None"""
+        out: list[ast.Call] = []
+        if any(isinstance(x, ast.Call) and self._inlinable(x) is not None for x in ast.walk(value)):
+            value = self.inline(value) or value  # `m = self._find(data, boundary)` with `def _find(...): return RX.search(data) if ... else None`
+        for arm, _ in self._arms(value, ()):
+            if arm is None or astq.is_none(arm):
+                continue
+            if isinstance(arm, ast.Call) and isinstance(arm.func, ast.Attribute) and arm.func.attr in ("search", "match", "fullmatch"):
+                out.append(arm)
+            else:
+                return None
+        return out
 
     def _anchor_call(self, e: ast.AST) -> FuncInfo | None:
         """the package function a call runs: a method reached through self / cls / the class name, or a function of the module"""
@@ -997,9 +1059,14 @@ class Splitter:
             if isinstance(a, ast.Name) and a.id in self.fi.params:
                 out["neutral"].append(norm(a))
                 continue
-            if isinstance(a, ast.Compare) and len(a.ops) == 1 and isinstance(a.ops[0], (ast.Is, ast.IsNot)) and isinstance(a.left, ast.Name) and astq.is_none(a.comparators[0]):
-                defs = self.rd.reaching(tn, a.left.id)
-                if defs and all(d.kind == "assign" and isinstance(d.value, ast.Call) and isinstance(d.value.func, ast.Attribute) and d.value.func.attr in ("search", "match") for d in defs):
+            if isinstance(a, ast.Name) and self._regex_results(a.id, tn) is not None:  # `if m:` / `if not m:` - a match object is true, None is not
+                out["neutral"].append(norm(a))
+                continue
+            if isinstance(a, ast.Compare) and len(a.ops) == 1 and isinstance(a.ops[0], (ast.Is, ast.IsNot)) and astq.is_none(a.comparators[0]):
+                # a match test (what is compared with None is the result of a regex call or None, held in a local or bound by a
+                # walrus in the test itself): says nothing that makes a release safer
+                tested = a.left.value if isinstance(a.left, ast.NamedExpr) else a.left
+                if (isinstance(tested, ast.Name) and self._regex_results(tested.id, tn) is not None) or (not isinstance(tested, ast.Name) and self._regex_arms(tested) is not None):
                     out["neutral"].append(norm(a))
                     continue
             th = self._threshold(a, tn, lab)
@@ -1014,20 +1081,26 @@ class Splitter:
 
     def _presence(self, a: ast.AST, tn: Node, lab: str):
         """is the test a statement about the boundary text being in the buffer? -> ("present"|"absent", expr)"""
-        if not (isinstance(a, ast.Compare) and len(a.ops) == 1):
-            return None
-        op, lhs, rhs = a.ops[0], a.left, a.comparators[0]
-
         def find_call(x: ast.AST) -> ast.Call | None:
-            """`buffer.find(needle)` / `buffer.index`-free spellings, also through a local that holds the result"""
+            """`buffer.find(needle)` / `buffer.count(needle)`, also through a local that holds the result"""
             if isinstance(x, ast.NamedExpr):
                 x = x.value
-            if isinstance(x, ast.Name):
+            if isinstance(x, ast.Name) and x.id not in self.fi.params:
                 d = self.ev_open.single_def(x.id, tn)
                 x = d.value if d is not None else x
-            if isinstance(x, ast.Call) and isinstance(x.func, ast.Attribute) and x.func.attr == "find" and norm(x.func.value) in self.buffers and len(x.args) == 1 and not x.keywords:
+            if isinstance(x, ast.Call) and isinstance(x.func, ast.Attribute) and x.func.attr in ("find", "count") and norm(x.func.value) in self.buffers and len(x.args) == 1 and not x.keywords:
                 return x
             return None
+
+        if not isinstance(a, ast.Compare):
+            # `if buffer.count(needle):` - the number of occurrences used as a truth value
+            fc0 = find_call(a)
+            if fc0 is not None and fc0.func.attr == "count":  # type: ignore[attr-defined]
+                return ("present" if lab == "T" else "absent", fc0.args[0])
+            return None
+        if len(a.ops) != 1:
+            return None
+        op, lhs, rhs = a.ops[0], a.left, a.comparators[0]
 
         def int_const(x: ast.AST) -> int | None:
             if isinstance(x, ast.UnaryOp) and isinstance(x.op, ast.USub) and isinstance(x.operand, ast.Constant) and isinstance(x.operand.value, int):
@@ -1045,7 +1118,10 @@ class Splitter:
             if fc is None or c is None:
                 return None
             needle = fc.args[0]
-            table = {(ast.Eq, -1): False, (ast.NotEq, -1): True, (ast.Lt, 0): False, (ast.GtE, 0): True, (ast.Gt, -1): True, (ast.LtE, -1): False}
+            if fc.func.attr == "count":  # type: ignore[attr-defined]
+                table = {(ast.Eq, 0): False, (ast.NotEq, 0): True, (ast.Lt, 1): False, (ast.GtE, 1): True, (ast.Gt, 0): True, (ast.LtE, 0): False}
+            else:
+                table = {(ast.Eq, -1): False, (ast.NotEq, -1): True, (ast.Lt, 0): False, (ast.GtE, 0): True, (ast.Gt, -1): True, (ast.LtE, -1): False}
             present_if_true = table.get((opt, c))  # type: ignore[arg-type]
             if present_if_true is None:
                 return None
@@ -1172,6 +1248,27 @@ class Splitter:
         return out
 
 
+BRANCH = {"present": "boundary text present", "absent": "boundary text absent"}
+
+
+class Branches:
+    """names of the instances of one clause by the state of the buffer (boundary text absent / present) the site is reached in, so that
+    the shape of the branching does not show in the name: two duplicated computations (one per state) and one computation that serves
+    both states give the same instances.  A site whose guards name a state stands for that state; a site whose guards say nothing
+    stands for every state that no other site stands for, and for "any buffer" when each state already has a site of its own (an
+    additional computation, not a merged one)."""
+
+    def __init__(self, facts: t.Iterable[str | None]):
+        self.claimed = {BRANCH[f] for f in facts if f is not None}
+
+    def of(self, fact: str | None) -> list[str]:
+        if fact is not None:
+            return [BRANCH[fact]]
+        free = [b for b in (BRANCH["absent"], BRANCH["present"]) if b not in self.claimed]
+        self.claimed.update(free)
+        return free or ["any buffer"]
+
+
 def rules_splitter(ctx: Ctx, roles: Roles, pats: Patterns, folder: Folder) -> Splitter:
     sp = Splitter(ctx, roles, pats, folder)
     fi = sp.fi
@@ -1183,6 +1280,7 @@ def rules_splitter(ctx: Ctx, roles: Roles, pats: Patterns, folder: Folder) -> Sp
     ctx.floor("R1.6", "hold-back release positions", len(sp.holds), 1)
     first_bytes = set().union(*[l.first_bytes() for l in sp.langs])
 
+    br15 = Branches(sp.guard_kinds(st_["node"], st_.get("extra", ()))["fact"] for st_ in sp.sites.values())
     for nid, site in sorted(sp.sites.items(), key=lambda kv: kv[1]["node"].lineno):
         node: Node = site["node"]
         g = sp.guard_kinds(node, site.get("extra", ()))
@@ -1217,6 +1315,7 @@ def rules_splitter(ctx: Ctx, roles: Roles, pats: Patterns, folder: Folder) -> Sp
                fi, site["stmt"], f"whole-buffer release ({branch})")
         # R1.5: the position the guard measures from
         if best is not None:
+            names15 = br15.of(fact)
             for anc in best["anchors"]:
                 afi: FuncInfo = anc["anchor"]
                 ctx.saw(afi)
@@ -1238,20 +1337,24 @@ def rules_splitter(ctx: Ctx, roles: Roles, pats: Patterns, folder: Folder) -> Sp
                 if under and unknown:
                     raise AnalysisError(f"{fi.loc(site['stmt'])}: early release is guarded by conditions that are not modelled: {unknown}")
                 a, b = bytes([bytes_[0]]), bytes([bytes_[-1]])
-                ctx.ob("R1.5", f"{fi.qualname}: the early-release guard measures the pending tail from the last line break", not under,
-                       f"`{norm(best['test'])}` measures from `{best['var']}` = `{norm(anc['call'])}`; {afi.qualname} returns {comb}("
-                       + ", ".join(f"last {bytes([b_])!r} or {'len' if k_ == 'end' else '-1'}" for k_, b_ in terms) + ")"
-                       + (f": when two different line-break bytes are more than T bytes apart the earlier one is taken, the tail looks long and the whole buffer is released although it ends with a byte that may start the delimiter "
-                          f"(e.g. payload {a!r} + more than T other bytes, then a CR LF delimiter whose CR ends one chunk and whose LF starts the next: the CR is emitted as payload)" if under else ": not before the last line-break byte"),
-                       fi, best["test"], f"early-release anchor ({branch})")
+                for br in names15:
+                    ctx.ob("R1.5", f"{fi.qualname}: the early-release guard measures the pending tail from the last line break", not under,
+                           f"`{norm(best['test'])}` measures from `{best['var']}` = `{norm(anc['call'])}`; {afi.qualname} returns {comb}("
+                           + ", ".join(f"last {bytes([b_])!r} or {'len' if k_ == 'end' else '-1'}" for k_, b_ in terms) + ")"
+                           + (f": when two different line-break bytes are more than T bytes apart the earlier one is taken, the tail looks long and the whole buffer is released although it ends with a byte that may start the delimiter "
+                              f"(e.g. payload {a!r} + more than T other bytes, then a CR LF delimiter whose CR ends one chunk and whose LF starts the next: the CR is emitted as payload)" if under else ": not before the last line-break byte"),
+                           fi, best["test"], f"early-release anchor ({br})")
 
     # R1.6: region of the hold-back scan vs region of the delimiter search
     dstarts = []
-    for c in astq.method_calls(fi.node, "search", nested=False):
+    searches = {id(c): c for c in astq.method_calls(fi.node, "search", nested=False)}
+    searches.update({id(it["call"]): it["call"] for it in sp.items if it["kind"] == "MATCH"})  # a search read out of a one-expression helper
+    for c in searches.values():
         if norm(c.func.value) == rx_txt and c.args and norm(c.args[0]) in sp.buffers:  # type: ignore[attr-defined]
             dstarts.append(c.args[1] if len(c.args) > 1 else None)
     if not dstarts or any(d is not None and not (isinstance(d, ast.Constant) and d.value == 0) for d in dstarts):
         raise AnalysisError(f"{fi.qualname}: delimiter search `{rx_txt}.search(...)` does not start at the beginning of the buffer: not modelled")
+    br16 = Branches(sp.guard_kinds(h_["node"], h_.get("extra", ()))["fact"] for h_ in sp.holds.values())
     for nid, h in sorted(sp.holds.items(), key=lambda kv: kv[1]["node"].lineno):
         call: ast.Call = h["call"]
         node = h["node"]
@@ -1322,16 +1425,17 @@ def rules_splitter(ctx: Ctx, roles: Roles, pats: Patterns, folder: Folder) -> Sp
             if unknown:
                 raise AnalysisError(f"{fi.loc(call)}: hold-back with a late scan start is guarded by conditions that are not modelled: {unknown}")
         g = sp.guard_kinds(node, h.get("extra", ()))
-        branch = {None: "any buffer", "present": "boundary text present", "absent": "boundary text absent"}[g["fact"]]
-        ctx.ob("R1.6", f"{fi.qualname}: the hold-back scan starts no later than the delimiter search", not late,
-               f"`{rx_txt}.search({sp.data})` looks for a delimiter from offset 0; `{norm(call)}` scans for a line break from {sorted({txt for txt, _, _ in lows})}"
-               + (f": a delimiter that begins in the skipped prefix is found once complete (payload ends before it) but is not held back while incomplete ({h['anchor'].qualname} answers `end of region` when the region has no line break) "
-                  f"(e.g. buffer = line break + first bytes of `--boundary` right after the headers of a body-less part: those bytes are released as payload)" if late else ""),
-               fi, call, f"hold-back scan region ({branch})")
+        for br in br16.of(g["fact"]):
+            ctx.ob("R1.6", f"{fi.qualname}: the hold-back scan starts no later than the delimiter search", not late,
+                   f"`{rx_txt}.search({sp.data})` looks for a delimiter from offset 0; `{norm(call)}` scans for a line break from {sorted({txt for txt, _, _ in lows})}"
+                   + (f": a delimiter that begins in the skipped prefix is found once complete (payload ends before it) but is not held back while incomplete ({h['anchor'].qualname} answers `end of region` when the region has no line break) "
+                      f"(e.g. buffer = line break + first bytes of `--boundary` right after the headers of a body-less part: those bytes are released as payload)" if late else ""),
+                   fi, call, f"hold-back scan region ({br})")
 
 
     # R1.7: what is skipped in front of the payload is deleted with it
     n17 = 0
+    br17 = {kd: Branches(sp.guard_kinds(it_["node"], it_.get("extra", ()))["fact"] for it_ in sp.items if it_["what"] == "deleted prefix" and it_["kind"] == kd) for kd in ("HOLD", "TAIL")}
     for it in sp.items:
         if it["what"] != "deleted prefix" or it["kind"] not in ("HOLD", "TAIL"):
             continue
@@ -1361,14 +1465,14 @@ def rules_splitter(ctx: Ctx, roles: Roles, pats: Patterns, folder: Folder) -> Sp
         unknown = g["unknown"] + call_unknown
         if not ok and unknown:
             raise AnalysisError(f"{fi.loc(it['stmt'])}: a deleted prefix that may end before the payload start is guarded by conditions that are not modelled: {unknown}")
-        branch = {None: "any buffer", "present": "boundary text present", "absent": "boundary text absent"}[g["fact"]]
         lo_txt = norm(lower) if lower is not None else "0"
-        ctx.ob("R1.7", f"{fi.qualname}: when the part continues, everything in front of the returned payload is deleted from the buffer", ok,
-               f"payload = {sp.data}[{lo_txt}:...], deleted prefix = `{norm(it['value'])}` (from `{norm(it['stmt'])}`); deleted - payload start >= "
-               + (f"{lb} for every buffer" if lb is not None else f"? ({why})")
-               + ("" if ok else f": the bytes skipped in front of the payload ({sp.data}[:{lo_txt}], the line break that opens the part body) can stay in the buffer while the decoder "
-                  f"moves on, and are then read again as payload (e.g. the chunk ends right after the blank line of the part headers: the part's data starts with a stray line break)"),
-               fi, it["stmt"], f"deleted prefix covers payload start ({branch}, {'hold-back' if it['kind'] == 'HOLD' else 'whole buffer'})")
+        for br in br17[it["kind"]].of(g["fact"]):
+            ctx.ob("R1.7", f"{fi.qualname}: when the part continues, everything in front of the returned payload is deleted from the buffer", ok,
+                   f"payload = {sp.data}[{lo_txt}:...], deleted prefix = `{norm(it['value'])}` (from `{norm(it['stmt'])}`); deleted - payload start >= "
+                   + (f"{lb} for every buffer" if lb is not None else f"? ({why})")
+                   + ("" if ok else f": the bytes skipped in front of the payload ({sp.data}[:{lo_txt}], the line break that opens the part body) can stay in the buffer while the decoder "
+                      f"moves on, and are then read again as payload (e.g. the chunk ends right after the blank line of the part headers: the part's data starts with a stray line break)"),
+                   fi, it["stmt"], f"deleted prefix covers payload start ({br}, {'hold-back' if it['kind'] == 'HOLD' else 'whole buffer'})")
     ctx.floor("R1.7", "deleted prefixes on paths that continue the part", n17, 1)
     return sp
 
